@@ -1284,6 +1284,7 @@ package main
 
 //@ func (*ClientTransportMgr).getFullAddr
 //@   props C12
+//@   holds c
 //@   uses tkeydef
 //@   modifies nothing
 //@   ensures key: result == tkey(protocol, host, port, transId)
@@ -1306,6 +1307,7 @@ package main
 
 //@ func (*ClientTransportMgr).cleanExpiredTransport
 //@   props C12
+//@   holds c
 //@   modifies mapof(c.transports), c.lastCleanTime, now
 //@   ensures clock: now >= old(now)
 //@   ensures only-removes: forall k string :: has(c.transports, k) ==> old(has(c.transports, k)) && c.transports[k] == old(c.transports[k])
@@ -1398,3 +1400,50 @@ package main
 //@   props C11
 //@   loop 0:
 //@     step stream-continues: len(pmInput) == len(prev(pmInput)) + 1 && pmInput[len(prev(pmInput))] == prev(RS[reader]) && hasSuffix(prev(RS[reader]), RS[reader])
+
+// ---- synchronisation discipline of the shared routing state (C09) ----
+// guarded: every access holds the mutex embedded in the same object. confined: only functions running on the
+// named goroutine(s) access the field (through objects they did not allocate). immutable: written only by the
+// function that allocates the object. atomicfield: touched through sync/atomic only.
+//@ immutable Proxy.myName
+//@ immutable Proxy.localAddress
+//@ immutable Proxy.keepNextHopRoute
+//@ immutable Proxy.preConfigRoute
+//@ immutable Proxy.resolver
+//@ immutable Proxy.selfLearnRoute
+//@ immutable Proxy.mustRecordRoute
+//@ immutable Proxy.msgChannel
+//@ immutable Proxy.backendChangeChannel
+//@ immutable Proxy.connAcceptedChannel
+//@ immutable Proxy.dialogBasedBackends
+//@ immutable Proxy.clientTransMgr
+//@ confined Proxy.items: (*Proxy).receiveAndProcessMessage, main
+//@ confined Proxy.backends: (*Proxy).receiveAndProcessMessage
+//@ immutable DialogBasedBackend.timeout
+//@ confined DialogBasedBackend.backends: (*Proxy).receiveAndProcessMessage
+//@ confined DialogBasedBackend.nextCleanTime: (*Proxy).receiveAndProcessMessage
+//@ guarded SelfLearnRoute.route
+//@ guarded RoundRobinBackend.index
+//@ guarded RoundRobinBackend.backends
+//@ guarded RoundRobinBackend.backendMap
+//@ immutable RoundRobinBackend.backendChangeListenerMgr
+//@ guarded BackendChangeListenerMgr.listeners
+//@ guarded ClientTransportMgr.transports
+//@ guarded ClientTransportMgr.lastCleanTime
+//@ immutable ClientTransportMgr.connectionEstablished
+//@ guarded ByteArrayPool.pool
+//@ immutable ByteArrayPool.maxCap
+//@ immutable ByteArrayPool.arraySize
+//@ guarded DynamicHostResolver.hostIPs
+//@ immutable DynamicHostResolver.interval
+//@ atomicfield DynamicHostResolver.stop
+//@ confined ProxyItem.transports: (*Proxy).receiveAndProcessMessage, main
+//@ immutable ProxyItem.backend
+//@ immutable ProxyItem.dests
+//@ immutable ProxyItem.defRoute
+//@ immutable ProxyItem.msgHandler
+//@ immutable PreConfigHostResolver.hostIPs
+//@ immutable PreConfigRoute.items
+
+//@ func (*ClientTransportMgr).createClientTransport
+//@   holds c
